@@ -341,7 +341,7 @@ fn multi_ok(t: &Topo, under_inner: bool, out: &mut BTreeMap<u8, bool>) {
         Topo::Puppet(p) => {
             out.insert(*p, under_inner);
         }
-        Topo::Flatten { outer, inners } => {
+        Topo::Flatten { outer, inners, .. } => {
             out.insert(*outer, under_inner);
             for c in inners {
                 multi_ok(c, true, out);
